@@ -1,6 +1,6 @@
 /*
- * executor for family `ladder` (property C17): the allocation / release pattern of dup_ustrings, cif_value_clone and
- * cif_value_insert_element_at under one failed allocation (see lean/Driver/Fam/Ladder.lean for the request language).
+ * executor for family `ladder` (property C17): the allocation / release pattern of dup_ustrings, cif_value_clone,
+ * cif_value_insert_element_at, cif_value_set_element_at and cif_loop_get_names under one failed allocation (see lean/Driver/Fam/Ladder.lean for the request language).
  * dup_ustrings is file-static in loop.c, which is therefore #included (HARNESS exclude_objs ["loop"]).
  */
 #include "cifio.h"
@@ -47,7 +47,9 @@ static void summary(int rc) {
     char *p = evbuf;
     while (*p) {
         char kind = *p++;
-        long id = strtol(p, &p, 10);
+        long id;
+        if (*p == 'p') { p++; while (*p == ' ') p++; continue; }    /* pre-existing block: outside the window */
+        id = strtol(p, &p, 10);
         while (*p == ' ') p++;
         if (kind == 'A') al[na++] = id; else if (kind == 'X') fl[nf++] = id; else if (kind == 'F') fr[nr++] = id;
         /* 'R' (release of a window block by realloc) and pre-existing blocks ('Fp', 'Rp') are not part of the model */
@@ -103,6 +105,55 @@ static void handle(int argc, char **argv) {
         ARM(); rc = cif_value_insert_element_at(lst, 1, e); DISARM();
         summary(rc);
         cif_value_free(filler); cif_value_free(e); cif_value_free(lst);
+    } else if (argc == 4 && (!strcmp(argv[1], "names") || !strcmp(argv[1], "namesfixed"))) {
+        /* cif_loop_get_names on a stored loop with n item names _a0 … (SQLite's own allocations are not wrapped here) */
+        int n = atoi(argv[2]), i;
+        cif_tp *cif = NULL;
+        cif_block_tp *blk = NULL;
+        cif_loop_tp *loop = NULL;
+        UChar code[] = { 'b', 0 };
+        UChar **names, **got = NULL;
+        if (n < 1 || n > 60) { OUT("bad-op"); return; }
+        names = (UChar **) calloc(n + 1, sizeof(UChar *));
+        for (i = 0; i < n; i++) { char b[16]; int j; snprintf(b, sizeof b, "_a%d", i); names[i] = (UChar *) calloc(16, sizeof(UChar)); for (j = 0; b[j]; j++) names[i][j] = (UChar) b[j]; }
+        if (cif_create(&cif) != CIF_OK || cif_create_block(cif, code, &blk) != CIF_OK
+                || cif_container_create_loop(blk, NULL, names, &loop) != CIF_OK) OUT("setup-failed ");
+        verif_arm(0, atol(argv[3]));
+        ARM(); rc = loop ? cif_loop_get_names(loop, &got) : -98; DISARM();
+        summary(rc);
+        if (rc == CIF_OK && got) { for (i = 0; got[i]; i++) free(got[i]); if (i != n) OUT(" !NAMES%d", i); free(got); }
+        if (loop) cif_loop_free(loop);
+        if (blk) cif_container_free(blk);
+        if (cif) cif_destroy(cif);
+        for (i = 0; i < n; i++) free(names[i]);
+        free(names);
+    } else if (argc >= 4 && !strcmp(argv[1], "set")) {
+        /* the target is element 1 of [ ? [ 'hi' 1.5(2) ] ? ]: cleaning it releases pre-existing blocks only */
+        cif_value_tp *lst = NULL, *e, *filler = NULL, *old = NULL, *probe = NULL;
+        UChar txt[] = { 'h', 'i', 0 };
+        UChar *num = NULL;
+        size_t n = 99;
+        int i;
+        pos = 2;
+        e = mk(argv, argc, &pos);
+        if (!e || pos != argc - 1) { OUT("bad-op"); cif_value_free(e); return; }
+        cif_value_create(CIF_LIST_KIND, &lst);
+        cif_value_create(CIF_UNK_KIND, &filler);
+        cif_value_create(CIF_LIST_KIND, &old);
+        cif_value_copy_char(filler, txt); cif_value_insert_element_at(old, 0, filler);
+        unhex("0031002e0035002800320029", &num, NULL);
+        if (cif_value_parse_numb(filler, num) != CIF_OK) free(num);
+        cif_value_insert_element_at(old, 1, filler);
+        cif_value_clean(filler);
+        for (i = 0; i < 3; i++) cif_value_insert_element_at(lst, 0, i == 1 ? old : filler);
+        verif_arm(0, atol(argv[pos]));
+        ARM(); rc = cif_value_set_element_at(lst, 1, e); DISARM();
+        summary(rc);
+        /* the list and its (possibly half-replaced) element must still be usable and releasable */
+        if (cif_value_get_element_count(lst, &n) != CIF_OK || n != 3) OUT(" !COUNT");
+        if (cif_value_get_element_at(lst, 1, &probe) != CIF_OK || !probe) OUT(" !ELEM");
+        else if (rc == CIF_OK && cif_value_kind(probe) != cif_value_kind(e)) OUT(" !KIND");
+        cif_value_free(old); cif_value_free(filler); cif_value_free(e); cif_value_free(lst);
     } else {
         OUT("bad-op");
     }
